@@ -323,6 +323,12 @@ func cmdCheck(repo, root string, args []string) int {
 				}
 			}
 		}
+		for sub, val := range standInPartial {
+			if strings.Contains(shortKey(key), sub) && (prop == "C08" || prop == "C05") {
+				standNames[val] = true
+				standFor = append(standFor, shortKey(key)+" (functional part)")
+			}
+		}
 	}
 	sort.Strings(standFor)
 	var standRows []map[string]interface{}
